@@ -196,7 +196,7 @@ Definition run (o : op) : ot :=
       | Some w => o_res (fun g => [OG g]) (dec true w)
       | None => o_err EOther
       end
-  | OpEncAny g => o_bytes_res (enc g)
+  | OpEncAny g => o_bytes_res (enc false g)
   end.
 
 (* indices of mismatching cases, and of cases the model declines (Unm) *)
